@@ -107,3 +107,14 @@ package rlp
 //@   trusted
 //@   ensures result == nil && typeis(w, "*bytes.Buffer") ==> buflen == store(old(buflen), unbox(w, "*bytes.Buffer"), old(buflen)[unbox(w, "*bytes.Buffer")] + rlpenclen(val))
 //@   assigns buflen, inferred
+
+// ---- big integers have one encoding (C11) --------------------------------------------------------
+// Ghost rlp_lastbytes: the byte string most recently returned by Stream.Bytes (ghost
+// instrumentation). A big integer is decoded only from a string without a leading zero byte, so
+// zero is the empty string and every value has exactly one accepted encoding.
+//@ ghost rlp_lastbytes Slice
+//@ func Stream.Bytes
+//@   axiom rlp_lastbytes == result0
+//@   assigns rlp_lastbytes, inferred
+//@ func decodeBigInt
+//@   ensures[C11] @canonint result == nil ==> len(as(rlp_lastbytes, "[]byte")) == 0 || as(rlp_lastbytes, "[]byte")[0] != 0
